@@ -14,7 +14,12 @@ pub fn spawn_watchdog(prop: &'static str, tier: run::Tier, seed: u64, verif_dir:
     std::thread::spawn(move || loop {
         std::thread::sleep(Duration::from_millis(100));
         let blown = guard::BLOWN.load(std::sync::atomic::Ordering::SeqCst);
-        let verdict = if blown != 0 {
+        let crashed = guard::CRASHED.load(std::sync::atomic::Ordering::SeqCst);
+        let verdict = if crashed != 0 {
+            let w1 = (crashed & 0xFFFF_FFFF) as usize;
+            let (sid, idx) = if w1 >= 1 && w1 <= guard::MAX_WORKERS { guard::crumb_of(w1 - 1) } else { (0, 0) };
+            Some((sid, idx, "process-abort", format!("the process was aborted (signal {}) while this case ran: stack overflow from unbounded recursion, failed allocation or a panic inside a panic", crashed >> 32)))
+        } else if blown != 0 {
             let (sid, idx) = guard::crumb_of(blown - 1);
             Some((sid, idx, "runaway-allocation", format!("live heap exceeded the cap ({} bytes live)", guard::live_alloc())))
         } else {
